@@ -2,6 +2,7 @@ package harness
 
 import (
 	"fmt"
+	"sort"
 	"testing"
 	"testing/synctest"
 
@@ -37,11 +38,12 @@ func simRun(t *testing.T, tape *sim.Tape, cfg sim.Config, setup func(r *sim.Runt
 // simAgg accumulates, per shard process, what the simulated runs reached: distinct pick sequences (the measure of
 // distinct interleavings), contention and concurrency reach. RunShard merges it into the shard summary.
 type simAggT struct {
-	scheds map[uint64]struct{}
-	stats  map[string]int64
+	scheds   map[uint64]struct{}
+	stats    map[string]int64
+	preSites map[int32]struct{}
 }
 
-var simAgg = &simAggT{scheds: map[uint64]struct{}{}, stats: map[string]int64{}}
+var simAgg = &simAggT{scheds: map[uint64]struct{}{}, stats: map[string]int64{}, preSites: map[int32]struct{}{}}
 
 func (a *simAggT) add(res *sim.Result) {
 	a.stats["sim_runs"]++
@@ -50,6 +52,9 @@ func (a *simAggT) add(res *sim.Result) {
 		if len(a.scheds) < 2000000 {
 			a.scheds[res.SchedHash^uint64(res.Decisions)<<40] = struct{}{}
 		}
+	}
+	for _, st := range res.PreSites {
+		a.preSites[st] = struct{}{}
 	}
 	a.stats["sim_decisions"] += int64(res.Decisions)
 	a.stats["sim_switches"] += int64(res.Switches)
@@ -63,6 +68,15 @@ func (a *simAggT) add(res *sim.Result) {
 	case res.MaxRunnable >= 2:
 		a.stats["probe_runs_with_2_or_3_runnable_tasks"]++
 	}
+}
+
+func (a *simAggT) sites() []int32 {
+	var out []int32
+	for st := range a.preSites {
+		out = append(out, st)
+	}
+	sort.Slice(out, func(i, j int) bool { return out[i] < out[j] })
+	return out
 }
 
 func (a *simAggT) mergeInto(stats map[string]int64) {
